@@ -253,6 +253,18 @@ def gen_tree(rng, mode='plain'):
            nested   - links to directories that hold links to directories with sub-directories (K5 probe)
            aliased  - several links per target, links to ancestors (termination only)"""
     dirs, files, links = ['.'], {}, {}
+    if mode == 'narrow':
+        # a spine: every level holds one leaf directory and one directory that goes deeper, so the
+        # last outstanding unit of work of the walk is a directory that still has a sub-directory
+        d = '.'
+        for lv in range(rng.randint(3, 7)):
+            for nm in (['l%d' % lv] if rng.random() < 0.8 else []) + ['n%d' % lv]:
+                p = nm if d == '.' else d + '/' + nm
+                dirs.append(p)
+                files[p] = ['f.%04d.exr' % i for i in range(1, rng.randint(2, 4))]
+            d = p
+        files['.'] = ['f.0001.exr', 'f.0002.exr']
+        return dirs, files, links
     def add_files(d):
         for _ in range(rng.randint(0, 3)):
             k = rng.random()
@@ -412,7 +424,7 @@ def c17_special(pid, prop, tier, seed, b):
     cases, failures, disagreements, impl_lines = [], [], [], []
     runs = []
     for t in range(ntrees):
-        mode = ['plain', 'plain', 'leaflinks', 'nested', 'aliased'][t % 5]
+        mode = ['plain', 'narrow', 'leaflinks', 'nested', 'aliased', 'plain'][t % 6]
         aliased = mode in ('aliased', 'nested')
         dirs, files, links = gen_tree(rng, mode)
         troot = '%s/t%d' % (root, t)
@@ -420,7 +432,9 @@ def c17_special(pid, prop, tier, seed, b):
         build_tree(troot, dirs, files, links)
         for v in range(3 if tier == 'quick' else 6):
             flags = ''.join(f for f in 'ras1f' if rng.random() < (0.7 if f == 'r' else 0.35))
-            nargs = rng.choice([0, 1, 1, 2, 3])
+            if mode == 'narrow' and 'r' not in flags:
+                flags = 'r' + flags
+            nargs = rng.choice([0, 1, 1, 2, 3]) if mode != 'narrow' else rng.choice([0, 0, 1])
             args = []
             for _ in range(nargs):
                 k = rng.random()
@@ -441,9 +455,9 @@ def c17_special(pid, prop, tier, seed, b):
                 # run from a sub-directory with the root spelled ".." (the hidden-directory test must not take it for hidden)
                 cwd_rel = rng.choice(subs)
                 args = ['..'] if rng.random() < 0.7 else ['..', '.']
-            gmp = rng.choice(['1', '2', '16'])
+            gmp = rng.choice(['1', '2', '16']) if mode != 'narrow' else rng.choice(['1', '1', '2', '4'])
             workers = rng.choice(['1', '2', '50'])
-            runs.append(dict(t=t, troot=troot, dirs=dirs, files=files, links=links, flags=flags, args=args, gmp=gmp,
+            runs.append(dict(reps=12 if mode == 'narrow' else 2, t=t, troot=troot, dirs=dirs, files=files, links=links, flags=flags, args=args, gmp=gmp,
                              workers=workers, aliased=aliased, mode=mode, cwd_rel=cwd_rel))
     # expected lines from the library (godriver diskx / findseqx), per run
     def opts_of(flags):
@@ -463,7 +477,7 @@ def c17_special(pid, prop, tier, seed, b):
         cmd += r['args']
         env = dict(os.environ, GOMAXPROCS=r['gmp'], VERIF_SEQLS_WORKERS=r['workers'])
         outs = []
-        for rep in range(2):
+        for rep in range(r['reps']):
             try:
                 p = subprocess.run(cmd, cwd=os.path.join(r['troot'], r['cwd_rel']), stdout=subprocess.PIPE, stderr=subprocess.PIPE, env=env, timeout=60)
                 outs.append(sorted(x for x in p.stdout.decode('latin-1').split('\n') if x != ''))
@@ -530,7 +544,7 @@ def c17_special(pid, prop, tier, seed, b):
         c['shape'] = r['mode'] + ':' + (r['flags'] or 'none')
         cases.append(c)
         f = []
-        if outs[0] is None or outs[1] is None:
+        if any(o is None for o in outs):
             f.append('seqls did not terminate within 60 s')
             impl_lines.append('TIMEOUT')
             failures.append((c, f))
@@ -541,12 +555,15 @@ def c17_special(pid, prop, tier, seed, b):
             c['text'] = 'nested-links: ' + c['text']
             f.append('two runs over a tree with nested directory links printed different multisets of lines')
         if not r['aliased']:
-            if outs[0] != outs[1]:
-                f.append('two runs printed different multisets of lines')
-            if outs[0] != r['expected']:
-                miss = [x for x in r['expected'] if x not in outs[0]]
-                extra = [x for x in outs[0] if x not in r['expected']]
-                f.append('printed lines differ from the listing of the selected directories: missing %r extra %r' % (miss[:3], extra[:3]))
+            if any(o != outs[0] for o in outs):
+                f.append('%d runs of the same command printed different multisets of lines' % len(outs))
+            for i, o in enumerate(outs):
+                if o != r['expected']:
+                    miss = [x for x in r['expected'] if x not in o]
+                    extra = [x for x in o if x not in r['expected']]
+                    f.append('run %d of %d: printed lines differ from the listing of the selected directories: missing %r extra %r' % (
+                        i + 1, len(outs), miss[:3], extra[:3]))
+                    break
         if f:
             failures.append((c, f))
         if not r['aliased'] and outs[0] is not None and r['cwd_rel'] == '.':
